@@ -224,3 +224,58 @@ VARIANTS["C04"] = [
     R("order-call", NE, "for n in range(len(network.G.nodes()))", "for n in range(network.G.order())"),
     R("dict-zip", EN, "        nx.set_edge_attributes(model.G, topologies, NetworkNames.TOPOLOGY)", "        nx.set_edge_attributes(model.G, dict(zip(edgelist.edge_list, edgelist.topologies)), NetworkNames.TOPOLOGY)"),
 ]
+
+# ------------------------------------------------------------------------------------------- C13
+JE = "gcmpy/tools/joint_excess_joint_degree.py"
+JD_ = "gcmpy/tools/joint_excess_degree.py"
+VARIANTS["C13"] = [
+    M("revert-D13", JE, "        self._num_edges = {}\n        for e in self._G.edges():", "        # self._num_edges = {}\n        for e in self._G.edges():", "C13.1"),
+    M("half-to-one", JE, "ejk[key1] = ejk.get(key1, 0) + (0.5 / (self._num_edges[name]))", "ejk[key1] = ejk.get(key1, 0) + (1.0 / (self._num_edges[name]))", "C13.2"),
+    M("mirror-dropped", JE, "                    ejk[key2] = ejk.get(key2, 0) + (0.5 / (self._num_edges[name]))\n", "", "C13.2"),
+    M("selfpair-half", JE, "ejk[key1] = ejk.get(key1, 0) + (1.0 / (self._num_edges[name]))", "ejk[key1] = ejk.get(key1, 0) + (0.5 / (self._num_edges[name]))", "C13.2"),
+    M("v-not-decremented", JE, "                v_joint_degree[i] -= 1\n", "", "C13.2"),
+    M("filter-inverted", JE, "if self._G.edges[e][NetworkNames.TOPOLOGY] == name:", "if self._G.edges[e][NetworkNames.TOPOLOGY] != name:", "C13.2"),
+    M("call-index-shift", JE, "self.get_ejk(i, topology)", "self.get_ejk(i + 1, topology)", "C13.3"),
+    M("overall-no-excess", JD_, "u_excess_degree = u_degree - 1", "u_excess_degree = u_degree", "C13.6"),
+    M("overall-wrong-divisor", JD_, "num_edges = len(G.edges())", "num_edges = len(G.nodes())", "C13.6"),
+    M("count-by-two", JE, "self._num_edges[topology] = self._num_edges.get(topology, 0) + 1", "self._num_edges[topology] = self._num_edges.get(topology, 0) + 2", "C13.4"),
+    M("wrong-position-decrement", JE, "                u_joint_degree[i] -= 1\n", "                u_joint_degree[0] -= 1\n", "C13.2"),
+    M("excess-keys-wrong-guard", JE, "                if jd[i] > 0:", "                if jd[i] >= 0:", "C13.5"),
+    M("divisor-other-topology", JE, "ejk[key1] = ejk.get(key1, 0) + (1.0 / (self._num_edges[name]))", "ejk[key1] = ejk.get(key1, 0) + (1.0 / (len(self._G.edges())))", "C13.2"),
+    R("reset-in-get-ejks", JE, "        self.count_edge_types()\n", "        self._num_edges = {}\n        self.count_edge_types()\n"),
+    R("unpack-in-loop-header", JE, "        for e in self._G.edges():\n            if self._G.edges[e][NetworkNames.TOPOLOGY] == name:\n                u, v = e\n",
+      "        for u, v in self._G.edges():\n            e = (u, v)\n            if self._G.edges[u, v][NetworkNames.TOPOLOGY] == name:\n"),
+    R("inverse-hoisted", JE, "                key1 = u_joint_excess_degree + v_joint_excess_degree", "                w = 1.0 / self._num_edges[name]\n                key1 = u_joint_excess_degree + v_joint_excess_degree"),
+    R("no-special-case", JE, "                if key1 == key2:\n                    ejk[key1] = ejk.get(key1, 0) + (1.0 / (self._num_edges[name]))\n                else:\n                    ejk[key1] = ejk.get(key1, 0) + (0.5 / (self._num_edges[name]))\n                    ejk[key2] = ejk.get(key2, 0) + (0.5 / (self._num_edges[name]))",
+      "                ejk[key1] = ejk.get(key1, 0) + (0.5 / (self._num_edges[name]))\n                ejk[key2] = ejk.get(key2, 0) + (0.5 / (self._num_edges[name]))"),
+]
+
+# ------------------------------------------------------------------------------------------- C14
+JFE = "gcmpy/tools/joint_degree_from_excess.py"
+JFJ = "gcmpy/tools/joint_excess_from_jdd.py"
+JFK = "gcmpy/tools/joint_excess_from_ejk.py"
+JMX = "gcmpy/tools/joint_excess_joint_degree_matrices.py"
+JNW = "gcmpy/tools/joint_degree_distribution_from_network.py"
+AVG = "gcmpy/tools/average_joint_degree_from_jdd.py"
+VARIANTS["C14"] = [
+    M("revert-D14", JFE, "choesn_topology = keys[0]", "choesn_topology = \"2-clique\"", "C14.4"),
+    M("forward-missing-plus-one", JFJ, "(_joint_degree[index] + 1) * jdd[joint_degree]", "_joint_degree[index] * jdd[joint_degree]", "C14.2"),
+    M("forward-wrong-average", JFJ, ") / averages[index]", ") / averages[0]", "C14.2"),
+    M("invert-plus-two", JFE, "top = qk[joint_excess] / (joint_excess[i] + 1)", "top = qk[joint_excess] / (joint_excess[i] + 2)", "C14.3"),
+    M("invert-no-increment", JFE, "            joint_degree[i] += 1\n", "", "C14.3"),
+    M("rowsum-right-key", JFK, "q[left_key] = q.get(left_key, 0.0) + ejk[left_key + right_key]", "q[right_key] = q.get(right_key, 0.0) + ejk[left_key + right_key]", ""),
+    M("rowsum-no-accumulate", JFK, "q[left_key] = q.get(left_key, 0.0) + ejk[left_key + right_key]", "q[left_key] = ejk[left_key + right_key]", "C14.6"),
+    M("halves-off", JMX, "C = A[len(A) // 2 :]", "C = A[len(A) // 2 + 1 :]", "C14.7"),
+    M("total-in-loop", JFE, "        total = sum(P.values())\n        for k in P:\n            P[k] /= total", "        for k in P:\n            total = sum(P.values())\n            P[k] /= total", "C14.5"),
+    M("hist-n-minus-1", JNW, "(1.0 / num_vertices)", "(1.0 / (num_vertices - 1))", "C14.8"),
+    M("mean-wrong-index", AVG, "joint_degree[index] * jdd[joint_degree]", "joint_degree[0] * jdd[joint_degree]", "C14.1"),
+    M("obs-wrong-index", JFE, "JointDegreeFromExcess.invert_single(qks[key], i)", "JointDegreeFromExcess.invert_single(qks[key], 0)", "C14.3"),
+    M("scale-inverted", JFE, "scale_factor = base_value / p_obs[topology][common_key]", "scale_factor = p_obs[topology][common_key] / base_value", "C14.5"),
+    M("no-renormalise", JFE, "        for k in P:\n            P[k] /= total\n", "", "C14.5"),
+    R("ref-next-iter", JFE, "choesn_topology = keys[0]", "choesn_topology = next(iter(p_obs))"),
+    R("mean-keys-direct", AVG, "        joint_degrees = list(jdd.keys())\n", "        joint_degrees = list(jdd)\n"),
+    R("invert-bottom-loop", JFE, "        bottom = sum(\n            [(qk[joint_excess] / (joint_excess[i] + 1)) for joint_excess in qk]\n        )",
+      "        bottom = 0.0\n        for je in qk:\n            bottom += qk[je] / (je[i] + 1)"),
+    R("forward-k-before-decrement", JFJ, "                if _joint_degree[index] > 0:\n                    _joint_degree[index] -= 1\n                    q[tuple(_joint_degree)] = (\n                        (_joint_degree[index] + 1) * jdd[joint_degree] + 0.0\n                    ) / averages[index]",
+      "                if joint_degree[index] > 0:\n                    _joint_degree[index] -= 1\n                    q[tuple(_joint_degree)] = joint_degree[index] * jdd[joint_degree] / averages[index]"),
+]
